@@ -9,6 +9,7 @@ use std::time::Duration;
 enum Op {
     BrowseT1,
     BrowseT1AgainDropOld,
+    BrowseCacheT1,
     BrowseT2,
     ResolveH1,
     ResolveH1UpperAgain,
@@ -19,9 +20,10 @@ enum Op {
     DeliverT1Ttl4500,
     DeliverH1Addr,
 }
-const OPS: [Op; 11] = [
+const OPS: [Op; 12] = [
     Op::BrowseT1,
     Op::BrowseT1AgainDropOld,
+    Op::BrowseCacheT1,
     Op::BrowseT2,
     Op::ResolveH1,
     Op::ResolveH1UpperAgain,
@@ -70,6 +72,11 @@ fn run_case(seq: &[(Op, u64)], horizon: u64, trace: bool) -> CaseResult {
     let open = |searches: &Vec<(Key, u64, Option<u64>)>, k: Key| searches.iter().rposition(|s| s.0 == k && s.2.is_none());
     // hostname searches with a timeout end by themselves: (index into `searches`, deadline)
     let mut deadlines: Vec<(usize, u64)> = vec![];
+    // a cache-only browse of T1 takes over the listener without starting a search: whether the
+    // earlier search goes on asking afterwards is left open (index into `searches`, from when)
+    let mut optional_from: Vec<(usize, u64)> = vec![];
+    // periods in which somebody listens to T1 (search or cache-only), for the refresh exemption
+    let mut cache_listen: Vec<(u64, Option<u64>)> = vec![];
     for (op, off) in seq {
         w.advance(*off);
         let now = w.now;
@@ -91,6 +98,15 @@ fn run_case(seq: &[(Op, u64)], horizon: u64, trace: bool) -> CaseResult {
                 let rx = w.ds[0].h.browse("_t._tcp.local.").unwrap();
                 t1_chans.push(w.add_browse(0, rx));
                 searches.push((Key::T1, now, None));
+                w.poke(0);
+            }
+            Op::BrowseCacheT1 => {
+                if let Some(p) = open(&searches, Key::T1) {
+                    optional_from.push((p, now));
+                }
+                let rx = w.ds[0].h.browse_cache("_t._tcp.local.").unwrap();
+                t1_chans.push(w.add_browse(0, rx));
+                cache_listen.push((now, None));
                 w.poke(0);
             }
             Op::BrowseT2 => {
@@ -120,6 +136,10 @@ fn run_case(seq: &[(Op, u64)], horizon: u64, trace: bool) -> CaseResult {
                     searches[p].2 = Some(now);
                     ptr_arrivals.clear(); // stop_browse forgets the cache
                 }
+                for c in cache_listen.iter_mut().filter(|c| c.1.is_none()) {
+                    c.1 = Some(now);
+                    ptr_arrivals.clear();
+                }
                 w.ds[0].h.stop_browse("_t._tcp.local.").unwrap();
                 w.poke(0);
             }
@@ -132,7 +152,7 @@ fn run_case(seq: &[(Op, u64)], horizon: u64, trace: bool) -> CaseResult {
             }
             Op::DeliverT1Ttl120 | Op::DeliverT1Ttl4500 => {
                 let ttl = if *op == Op::DeliverT1Ttl120 { 120 } else { 4500 };
-                if open(&searches, Key::T1).is_some() {
+                if open(&searches, Key::T1).is_some() || cache_listen.iter().any(|c| c.1.is_none()) {
                     ptr_arrivals.push((now, ttl as u64 * 1000));
                 }
                 w.deliver(0, IF0, PEER0, build(&response(i1.all(ttl))));
@@ -168,15 +188,23 @@ fn run_case(seq: &[(Op, u64)], horizon: u64, trace: bool) -> CaseResult {
             .collect();
         observed.sort_unstable();
         let mut expected: Vec<u64> = vec![];
-        for (k, s, e) in &searches {
+        let mut optional: Vec<u64> = vec![];
+        for (idx, (k, s, e)) in searches.iter().enumerate() {
             if *k == key {
-                expected.extend(schedule(*s, e.unwrap_or(end)));
+                let from = optional_from.iter().filter(|o| o.0 == idx).map(|o| o.1).min();
+                for t in schedule(*s, e.unwrap_or(end)) {
+                    if from.is_some_and(|f| t >= f) {
+                        optional.push(t);
+                    } else {
+                        expected.push(t);
+                    }
+                }
             }
         }
         expected.sort_unstable();
         // exempt: refresh marks of records the harness delivered while the search was open
         let mut exempt: Vec<u64> = vec![];
-        let open_at = |t: u64| searches.iter().any(|(k, s, e)| *k == key && *s <= t && e.map_or(true, |e| t <= e));
+        let open_at = |t: u64| searches.iter().any(|(k, s, e)| *k == key && *s <= t && e.map_or(true, |e| t <= e)) || (key == Key::T1 && cache_listen.iter().any(|(s, e)| *s <= t && e.map_or(true, |e| t <= e)));
         match key {
             Key::T1 => {
                 for (arr, life) in &ptr_arrivals {
@@ -209,6 +237,12 @@ fn run_case(seq: &[(Op, u64)], horizon: u64, trace: bool) -> CaseResult {
                 extra.remove(p);
             } else {
                 missing.push(*t);
+            }
+        }
+        for t in &optional {
+            if let Some(p) = extra.iter().position(|x| x == t) {
+                extra.remove(p);
+                res.count("queries_of_a_search_whose_listener_a_cache_only_browse_took_over", 1);
             }
         }
         for t in &exempt {
@@ -342,6 +376,30 @@ pub fn check(tier: &str) -> i32 {
     rep.run_part(&part, Duration::from_secs(if thorough { 3000 } else { 50 }));
     rep.require("search-combinations-3-days", "scheduled_queries_matched");
     rep.require("search-combinations-3-days", "exempt_refresh_queries");
+    // deeper, on one type only: repeated, cache-only and stopped browses of the same type
+    const T1OPS: [Op; 6] = [Op::BrowseT1, Op::BrowseT1AgainDropOld, Op::BrowseCacheT1, Op::StopT1, Op::DeliverT1Ttl120, Op::BrowseT2];
+    const T1OFFS: [u64; 3] = [300, 500, 1500];
+    let tdepth = if thorough { 5 } else { 4 };
+    let tm = (T1OPS.len() * T1OFFS.len()) as u64;
+    let tn = tm.pow(tdepth);
+    let tseq = move |mut idx: u64| -> Vec<(Op, u64)> {
+        (0..tdepth)
+            .map(|_| {
+                let x = idx % tm;
+                idx /= tm;
+                (T1OPS[(x / T1OFFS.len() as u64) as usize], T1OFFS[(x % T1OFFS.len() as u64) as usize])
+            })
+            .collect()
+    };
+    let one = FnPart {
+        name: "one-type-browsed-again-and-again".into(),
+        rule: format!("every sequence of exactly {tdepth} (operation, offset) pairs over browse / browse again with the old receiver dropped / cache-only browse / stop / a delivered answer / a browse of another type x offsets {{0.3, 0.5, 1.5 s}}, then 1 virtual day; same oracle"),
+        n: tn,
+        describe: Box::new(move |i| format!("{:?}", tseq(i))),
+        run: Box::new(move |i, tr| run_case(&tseq(i), 24 * 3600 * 1000, tr)),
+    };
+    rep.run_part(&one, Duration::from_secs(if thorough { 3000 } else { 120 }));
+    rep.require("one-type-browsed-again-and-again", "queries_of_a_search_whose_listener_a_cache_only_browse_took_over");
     let fdims = [3u64, 2, 2];
     let fu = FnPart {
         name: "follow-ups-for-an-unresolved-instance".into(),
